@@ -31,7 +31,9 @@ _scratch_pid = None
 
 def _make_scratch():
     global _scratch, _scratch_pid
-    _scratch = tempfile.mkdtemp(prefix="fsv-", dir="/tmp")
+    # a forked pool worker never runs atexit handlers: nest its scratch inside the parent's, which does
+    parent = _scratch if (_scratch and os.path.isdir(_scratch)) else "/tmp"
+    _scratch = tempfile.mkdtemp(prefix="fsv-", dir=parent)
     os.chmod(_scratch, 0o755)
     _scratch_pid = os.getpid()
     os.makedirs(os.path.join(_scratch, "home"), exist_ok=True)
